@@ -6,13 +6,14 @@
 (b) lazy evaluation (engine T1): a seeded generator (checks/c17gen.py) emits programs over
     tvector/tmatrix/stensor/tensor and every kind of view, with operator trees and aliasing patterns; the real
     templates are traced with one distinct input symbol per storage cell; for each program a kernel-checked theorem
-    (GenObl*.lean, regenerated on every run) states that every storage cell after the program equals its eager value.
+    (GenP*.lean, regenerated on every run) states that every storage cell after the program equals its eager value.
     This is translation validation of a seeded finite program family (`programs` in the evidence).
 """
 import collections
 import os
 import random
 import re
+import sys
 from concurrent.futures import ThreadPoolExecutor
 from fractions import Fraction
 
@@ -252,18 +253,28 @@ def run(ck):
         stats.update(st)
         for f in found:
             refuted[f["unit"]] = f
-        ck.emit([dag], "TfelVerif.C17.GenP%d" % i, "TfelVerif/C17/GenP%d.lean" % i)
-        txt = ("-- GENERATED by checks/C17.py (seed %d, tier %s): eager meaning of the traced programs of GenP%d. Do not edit.\n"
-               "import TfelVerif.C17.Tactic\nimport TfelVerif.C17.GenP%d\nset_option linter.unusedVariables false\n"
-               "namespace TfelVerif.C17.GenObl%d\nopen TfelVerif TfelVerif.C17\n\n" % (ck.seed, ck.tier, i, i, i))
+        # one generated module per chunk: the traced definitions (emit.py) followed by the eager obligations
+        tmp = ck.path("genp_%d.lean" % i)
+        pe = vlib.sh([sys.executable, os.path.join(vlib.VERIF, "harness", "symtrace", "emit.py"),
+                      "--namespace", "TfelVerif.C17.GenP%d" % i, "--out", tmp, dag])
+        if pe.returncode != 0:
+            raise vlib.BuildError("emit.py failed", pe.stdout + pe.stderr)
+        gen = open(tmp).read()
+        endline = "end TfelVerif.C17.GenP%d\n" % i
+        if not gen.endswith(endline) or "import TfelVerif.Common.Sym\n" not in gen:
+            raise vlib.BuildError("unexpected layout of the emitted Lean file", gen[:300])
+        txt = ("\n/-! ## eager meaning of the traced programs (checks/C17.py, seed %d, tier %s): one obligation per program -/\n"
+               "section Obligations\nopen TfelVerif.C17\n\n" % (ck.seed, ck.tier))
         for P in ch:
             if P.name in refuted:
                 txt += "-- %s: refuted by exact evaluation (reported as a violation with its failing input); no obligation emitted\n\n" % P.name
             else:
                 txt += "/- %s -/\n" % " ".join(s[0] for s in P.stmts) + c17gen.lean_theorem(P, P.state, "GenP%d" % i)
-        txt += "end TfelVerif.C17.GenObl%d\n" % i
-        ck.write_gen("TfelVerif/C17/GenObl%d.lean" % i, txt)
-        modules.append("TfelVerif.C17.GenObl%d" % i)
+        txt += "end Obligations\n"
+        gen = gen.replace("import TfelVerif.Common.Sym\n", "import TfelVerif.Common.Sym\nimport TfelVerif.C17.Tactic\n", 1)
+        gen = gen[:-len(endline)] + txt + endline
+        ck.write_gen("TfelVerif/C17/GenP%d.lean" % i, gen)
+        modules.append("TfelVerif.C17.GenP%d" % i)
     res = ck.lean(modules + [PROPS_A], modules + [PROPS_A])
     # violations of (b): programs refuted by exact evaluation, with replay on the real double code
     reported = collections.Counter()
@@ -333,7 +344,7 @@ def run(ck):
         "programs_proved_equal_to_eager": len(progs) - nref if res.ok else None,
         "programs_refuted": {k: v for k, v in reported.items()},
         "obligations": obligations, "discharged": discharged,
-        "checker_cmd": "lake build TfelVerif.C17.GenObl* TfelVerif.C17.Props && #print axioms on every theorem (bin/check C17 --tier %s)" % ck.tier,
+        "checker_cmd": "lake build TfelVerif.C17.GenP* TfelVerif.C17.Props && #print axioms on every theorem (bin/check C17 --tier %s)" % ck.tier,
         "trusted_base": vlib.BASE_TRUSTED + ck.assumptions,
         "theorems": [t[0] for r in ck.lean_results for t in r.theorems][:60],
         "evaluations": int(stats["points"]) + cov_a["requests"],
